@@ -390,7 +390,8 @@ theorem bitfield_saturation_as_coded (v : BitVec 64) (bits : Nat) (h1 : 1 â‰¤ bi
     subset makes the translator fail, and this list change) -/
 theorem go_arith_translated :
     Go.translated = ["isSignedSumOverflow", "isUnsignedOverflow", "saturateValue", "signExtend", "isPowerOfTwo",
-      "hashToIndex", "sipRound", "getRangeClamp", "lrangeClamp", "bitcountClamp", "bitcountMasks", "ltrimClamp", "addIntOverflowGuard", "fieldAddIntOverflowGuard"] := rfl
+      "hashToIndex", "sipRound", "getRangeClamp", "lrangeClamp", "bitcountClamp", "bitcountMasks", "ltrimClamp", "addIntOverflowGuard", "fieldAddIntOverflowGuard",
+      "setbitOffsetGuard", "setrangeSizeGuard"] := rfl
 
 /-- `signExtend(value, bits)` translated from the Go source on this run: on a field value of width 1..64 it returns the
     two's-complement reading of the field â€” the model's `toSigned`, which `GET i<w>` and the signed `INCRBY` / `SET`
@@ -445,6 +446,12 @@ theorem bitcount_masks_as_coded (s e : BitVec 64) (hs : 0 â‰¤ s.toInt) (he : 0 â
   go_bitcountMasks s e hs he
 
 theorem bitcount_masks_examples : Go.bitcountMasks 3#64 13#64 = (0x1f#8, 0xfc#8) := by decide
+
+/-- The offset test of `fnSetBit` (the `if` that answers "bit offset is not an integer or out of range"), translated on
+    this run, is the test of the model's `cmdSetBit`: a negative offset, or one beyond the 2^32 bits a 512 MB string has. -/
+theorem setbit_offset_guard_as_coded (o : BitVec 64) :
+    Go.setbitOffsetGuard o = (decide (o.toInt < 0) || decide (o.toInt â‰¥ 4294967296)) :=
+  go_setbitOffsetGuard o
 
 /-- non-vacuity: i8, 100 + 100 overflows, 100 + 27 does not; i64 at the edge -/
 theorem bitfield_signed_overflow_examples :
